@@ -219,7 +219,9 @@ class ConverterFactory:
         if len(types) < 2:
             return list(types)
 
-        return sorted(types, key=lambda x: __PYTHON_TYPES_SORTED__.get(x, 0))
+        return sorted(
+            types, key=lambda x: (__PYTHON_TYPES_SORTED__.get(x, 0), x is object)
+        )
 
     @classmethod
     def explicit_types(cls) -> tuple[type, ...]:
